@@ -54,7 +54,9 @@ type Proxy struct {
 	mu      sync.Mutex
 	conns   []*ProxyConn
 	Reseg   int32 // 0: forward chunks as read; 1: byte-wise; 2: random pieces with yields
-	segSeed int64
+	// PauseNextMS: the next service->client chunk is forwarded in two halves with this pause in between (one shot)
+	PauseNextMS int32
+	segSeed     int64
 }
 
 var proxyCounter int64
@@ -140,6 +142,13 @@ func (p *Proxy) serve(c net.Conn, pc *ProxyConn, seed int64) {
 				*rec = append(*rec, buf[:n]...)
 				pc.mu.Unlock()
 				b := buf[:n]
+				if rec == &pc.s2c && n >= 2 {
+					if ms := atomic.SwapInt32(&p.PauseNextMS, 0); ms > 0 {
+						dst.Write(b[:n/2])
+						time.Sleep(time.Duration(ms) * time.Millisecond)
+						b = b[n/2:]
+					}
+				}
 				switch mode {
 				case 1:
 					for i := range b {
